@@ -74,7 +74,7 @@ class C02(HistoryCheck):
     RUNS = {"quick": 1500, "thorough": 30000}
     # init=False attributes are never initialised on instances, so instance.attr *is* the class-level default
     # object and in-place element helpers edit it for every instance (C08 territory, and excluded there too).
-    PROFILE = {"allow_frozen": False, "allow_class_dnc": False, "allow_init_false": False, "allow_mutable_props": True,
+    PROFILE = {"allow_frozen": False, "allow_class_dnc": False, "allow_init_false": False, "allow_mutable_props": True, "allow_foreign_defaults": True,
                "kinds": ALL_KINDS + ["any", "list_optleaf"]}
     # untyped attributes holding spec instances inside immutable containers (a tuple is hashable, not immutable in depth)
     ANY_EXTRA = [["tuple", [["leaf", {"p": 2}], 1]], ["tuple", [["list", [["leaf", {}]]], "s"]],
